@@ -849,14 +849,19 @@ func main() {
 			if pr.p2 {
 				key += ":p2invalid"
 			}
-			rep.Guard(key, base, func() {
+			// replayable like a generated case (bin/check C27 --replay): the probe's two
+			// amounts are fixed here, in 3 = out 2 + fee 1 balances and out 1 does not
+			base.Var, base.Accept, base.P2Wire = "baseline", out == 2, pr.p2 && era != "dijkstra"
+			base.CC, base.PC = 3, out+1
+			breplay := map[string]any{"case": base, "key": key}
+			rep.Guard(key, breplay, func() {
 				err := er.fn(bt.tx, 0, bt.ls, bt.pp)
 				if k := errKind(err); k != "accepted" && k != "ValueNotConservedUtxoError" {
 					rep.Dead("baseline %s: rule answered %s (%v): harness does not fit the rule", era, k, err)
 				}
 				rep.Case(key, true)
 				if (err == nil) != (out == 2) {
-					rep.Disagree(key, fmt.Sprintf("in 3 = out %d + fee 1%s: rule says %s", out, flagNote(pr.p2), errKind(err)), base)
+					rep.Disagree(key, fmt.Sprintf("in 3 = out %d + fee 1%s: rule says %s", out, flagNote(pr.p2), errKind(err)), breplay)
 				}
 			})
 		}
